@@ -200,7 +200,15 @@ Fixpoint fapp (a b : forest) : forest :=
   match a with FNil => b | FCons k d r => FCons k d (fapp r b) end.
 Definition dict_union (a b : data) : data := Node KDict (fapp (forest_of a) (forest_of b)).
 Definition lazy_eval (fn : data -> data) (x extra : data) : data := dict_union (fn x) extra.
+(* LazyCall._extra_batches: itertools.repeat({}) when `not self.extra` (follows all data batches),
+   otherwise split_generator(self.extra, batch) *)
 Definition lazy_batches (fn : data -> data) (mx b : nat) (x extra : data) : list data :=
+  match forest_of extra with
+  | FNil => map (fun p => dict_union (fn p) (Node KDict FNil)) (data_split mx b x)
+  | FCons _ _ _ => zipw dict_union (map fn (data_split mx b x)) (data_split mx b extra)
+  end.
+(* before d64dc15 the empty extra was split on its own: only MAX_ITER copies of {} *)
+Definition lazy_batches_old (fn : data -> data) (mx b : nat) (x extra : data) : list data :=
   zipw dict_union (map fn (data_split mx b x)) (data_split mx b extra).
 
 (* ---- dat-file layout ---- *)
